@@ -63,6 +63,25 @@ def opTokOf (t : OpTable) (name : String) (named : Bool) : Option OpTok :=
       | some k => some (.un k)
       | none => none
 
+/-- cells in which a repetition-flagged SHIFT (skipped by the runtime) sits next to a REDUCE that is
+not the repeat rule's own binary recursion `aux → aux aux` (finding C03-repetition-conflict) -/
+def suspiciousRepetitionCells (tbl : Table) : Nat :=
+  (tbl.acts.toList.map fun row => (row.filter fun e =>
+      e.2.any (fun a => match a with | .shift _ _ true => true | _ => false) &&
+      e.2.any (fun a => match a with
+        | .reduce A n _ _ => !(n == 2 && isAux tbl A)
+        | _ => false)).length).foldl (· + ·) 0
+
+partial def aliasesOfSym (x : String) : Rule → List String
+  | .alias v _ a => (match stripAlias a with | .sym y => if y == x then [v] else [] | _ => []) ++ aliasesOfSym x a
+  | .seq a b => aliasesOfSym x a ++ aliasesOfSym x b
+  | .choice a b => aliasesOfSym x a ++ aliasesOfSym x b
+  | .rep a => aliasesOfSym x a
+  | .rep1 a => aliasesOfSym x a
+  | .field _ a => aliasesOfSym x a
+  | .prec _ _ a => aliasesOfSym x a
+  | _ => []
+
 def onReady (s : GState) : GState × String :=
   let tbl := Table.ofLines s.tableLines.toList
   let closed := tableClosed tbl
@@ -87,7 +106,7 @@ def onReady (s : GState) : GState × String :=
     i.name == t.tok.name && t.sym < tbl.tokenCount
   ({ s with tbl := tbl, closed := closed, g := g, oracle := oracle, opOK := opOK, dynO := dynO },
    s!"G {s.gid} kind={s.kind} closed={closed} states={tbl.stateCount} symbols={tbl.symbolCount} rules={g.rules.length} " ++
-   s!"simple={simple} oracle={oracle.isSome} dyn={dynO.isSome} L={s.exh} lang={langSize} fix={fix} opgrammar={opOK} terms={termsOK} nterm={s.terms.size}")
+   s!"repconflict={suspiciousRepetitionCells tbl} simple={simple} oracle={oracle.isSome} dyn={dynO.isSome} L={s.exh} lang={langSize} fix={fix} opgrammar={opOK} terms={termsOK} nterm={s.terms.size}")
 
 def drvName : Outcome → String
   | .accepted _ => "acc"
@@ -151,11 +170,21 @@ def runCase (s : GState) : String :=
     | _, _ => none
   let judge : String :=
     match member with
-    | some m => if m == !s.err then "" else s!"membership(member={m},has_error={s.err});"
+    | some m =>
+      if m == !s.err then ""
+      else if m && s.err && drvName drv == "rej" && acceptsAny tbl (12 * symToks.length + 40) { stack := [], toks := symToks } then
+        -- the table WOULD accept if the repetition-flagged shifts the runtime skips were taken
+        s!"membership-lost-to-a-skipped-repetition-shift(member={m},has_error={s.err});"
+      else s!"membership(member={m},has_error={s.err});"
     | none => ""
   let rootKind := match vt with | some v => v.kind | none => ""
   let judge := judge ++ (match deriv with
-    | some false => if rootKind != s.g.start then s!"root-kind-is-not-the-start-rule({rootKind});" else "tree-is-not-a-derivation;"
+    | some false =>
+      if rootKind != s.g.start then
+        if (s.g.rules.any fun e => (aliasesOfSym s.g.start e.2).contains rootKind)
+        then s!"root-kind-is-an-alias-of-the-start-rule({rootKind});"
+        else s!"root-kind-is-not-the-start-rule({rootKind});"
+      else "tree-is-not-a-derivation;"
     | _ => "")
   let judge := judge ++ (match prattMsg with
     | some m => m ++ ";"
